@@ -11,4 +11,4 @@ cd coq
 files=$(ls Common/*.v Model/*.v Gen/*.v Proofs/*.v Check/*.v Props/*.v 2>/dev/null || true)
 coq_makefile -f _CoqProject -o Makefile $files
 echo "$files" | tr ' ' '\n' | sed '/^$/d' > .files.stamp.tmp
-timeout 3000 make -k -j16
+timeout 3000 make -k -j16 || echo "setup: some theories did not build (each check rebuilds its own cone and reports the broken obligation)"
